@@ -2,7 +2,7 @@
 Spec: server/Worker.tla (one action = one poll of the ServerWorker future)."""
 import workerflow
 
-INV = ["T_C07_CallOnlyAfterAllReady", "T_C07_Fifo", "T_C07_RestartOnlyFailed", "T_C07_FailedIsRecreated", "T_C07_NoneLost"]
+INV = ["T_C07_CallOnlyAfterAllReady", "T_C07_Fifo", "T_C07_RestartOnlyFailed", "T_C07_FailedIsRecreated", "T_C07_NoneLost", "T_C07_QueueMeasured"]
 DESIGN = ["MC_worker_ready.cfg", "MC_worker_ready_k1.cfg"]
 THOROUGH = ["MC_worker_ready3.cfg"]
 NEGS = {"NEG_worker_ReadyCheckOnce.cfg": ["Steps"], "NEG_worker_RestartAll.cfg": ["Steps"],
